@@ -94,7 +94,9 @@ impl Lower {
             assert_eq!(".", &name[..1]);
 
             return ir::Ty {
-                kind: ir::TyKind::Path(self.str2path(&name[1..])),
+                // keep the leading dot as an empty first segment: it marks the path as
+                // absolute for the resolver (type names in descriptors always are)
+                kind: ir::TyKind::Path(self.str2path(name)),
                 tags: Default::default(),
             };
         }
